@@ -20,6 +20,7 @@ import (
 	erpc "github.com/henrylee2cn/erpc/v6"
 	"github.com/henrylee2cn/erpc/v6/codec"
 	"github.com/henrylee2cn/erpc/v6/plugin/heartbeat"
+	"github.com/henrylee2cn/erpc/v6/plugin/secure"
 	pbmsg "github.com/henrylee2cn/erpc/v6/proto/pbproto/pb"
 
 	"verifharness/bed"
@@ -59,6 +60,7 @@ type Config struct {
 	TCP   bool     `json:"loopback_tcp"`
 	Ages  bool     `json:"session_and_context_age_set"`
 	Seq   string   `json:"sequence_counter_start"` // "", "wrap" (just below 2^31-1) or "zero" (just below 0)
+	Sec   bool     `json:"secure_plugin"`          // both peers carry the secure plug-in (same key); token-determined messages of the kinds bytes, json, pb are marked secure or ask for a secure reply
 	Beat  string   `json:"heartbeat"`              // "", "call" or "push": heartbeat ping (3 s) / pong plugins; the traffic pauses ~6.5 s halfway so that pings travel between user messages
 }
 
@@ -137,6 +139,7 @@ func configs(tierName string, r *core.Rand) []Config {
 				c.Beat = "call"
 			}
 		}
+		c.Sec = i%7 == 2 && dupMetaOK(p.Name)
 		c.Seq = []string{"", "wrap", "zero"}[i%3] // the 32-bit sequence counter starts just below its wrap / just below zero
 		if *lean {
 			c.N = c.N/2 + 1
@@ -208,6 +211,18 @@ func dupMetaOK(proto string) bool {
 	return false
 }
 
+// secureMark: 0 = unmarked, 1 = marked secure (body encrypted, reply encrypted), 2 = asks for an encrypted reply.
+func secureMark(cfg Config, kind, t string) int {
+	if !cfg.Sec || tok.Bare(t) {
+		return 0
+	}
+	switch kind {
+	case "bytes", "json", "pb":
+		return int(fnv("sec:"+t) % 3)
+	}
+	return 0
+}
+
 func settings(cfg Config, kind, t string) []erpc.MessageSetting {
 	if tok.Bare(t) {
 		// no metadata at all; half of them also without the configuration's filter pipe
@@ -221,7 +236,17 @@ func settings(cfg Config, kind, t string) []erpc.MessageSetting {
 	if dupMetaOK(cfg.Proto) && tok.DupMeta(t) {
 		s = append(s, erpc.WithSetMeta("Dn", "2"), erpc.WithAddMeta("Dup", tok.MetaVal(t, 3)), erpc.WithAddMeta("Dup", tok.MetaVal(t, 4)), erpc.WithSetMeta("Esc", tok.EscVal(t)))
 	}
-	if a := acceptFor(kind, t); a != 0 {
+	if m := secureMark(cfg, kind, t); m != 0 {
+		if kind == "bytes" {
+			// a byte body is taken as it is; the envelope of the secure plug-in needs a structured codec
+			s[0] = erpc.WithBodyCodec(codec.ID_JSON)
+		}
+		if m == 1 {
+			s = append(s, secure.WithSecureMeta())
+		} else {
+			s = append(s, secure.WithAcceptSecureMeta(true))
+		}
+	} else if a := acceptFor(kind, t); a != 0 {
 		s = append(s, erpc.WithAcceptBodyCodec(a))
 	}
 	if fnv(t)%5 == 2 {
@@ -312,7 +337,7 @@ func (cs *caseState) checkReply(kind, t string, cmd erpc.CallCmd, arg interface{
 		}
 		return
 	}
-	if a := acceptFor(kind, t); a != 0 {
+	if a := acceptFor(kind, t); a != 0 && secureMark(cs.cfg, kind, t) == 0 {
 		atomic.AddInt64(&cs.acceptAsked, 1)
 		if got := cmd.InputBodyCodec(); got != a {
 			cs.report("reply-codec-not-the-accepted-one", kind, fmt.Sprintf("token %q: the call asked for a reply in body codec %d, the OK reply came in codec %d", t, a, got))
@@ -424,6 +449,10 @@ func runCase(id string, cfg Config, r *core.Rand) {
 	if cfg.Beat != "" {
 		paPlugins = append(paPlugins, heartbeat.NewPing(3, cfg.Beat == "call"))
 		pbPlugins = append(pbPlugins, heartbeat.NewPong(), &beatCounter{cs: cs})
+	}
+	if cfg.Sec {
+		paPlugins = append(paPlugins, secure.NewPlugin(1001, "c01-cipherkey-16"))
+		pbPlugins = append(pbPlugins, secure.NewPlugin(1001, "c01-cipherkey-16"))
 	}
 	pa := erpc.NewPeer(pacfg, paPlugins...)
 	pbcfg := erpc.PeerConfig{PrintDetail: cfg.Log != "OFF", CountTime: cfg.Log != "OFF"}
@@ -554,7 +583,7 @@ func runCase(id string, cfg Config, r *core.Rand) {
 				kind, t := next()
 				arg := tok.Build(kind, t, tok.Payload(t))
 				var st *erpc.Status
-				if ps, ok := sess.(erpc.PreSession); ok && gr.Intn(3) == 0 {
+				if ps, ok := sess.(erpc.PreSession); ok && gr.Intn(3) == 0 && secureMark(cfg, kind, t) == 0 {
 					// the plugin-less push of an early-session handle kept by a plugin; it shares the session's write path
 					st = ps.RawPush(tok.PushRoute(kind), arg, settings(cfg, kind, t)...)
 					atomic.AddInt64(&cs.rawPushes, 1)
@@ -644,7 +673,7 @@ func runCase(id string, cfg Config, r *core.Rand) {
 	core.Add("gate_hits", hits)
 	core.Add("evaluations", cs.callsOK+cs.callsFailed+cs.pushesSent)
 	core.Max("max_handlers_in_flight", mon.MaxFlight)
-	sig := fmt.Sprintf("%s/%s/pipe=%s/S%dG%d/%s/log=%s/delay=%d/tcp=%v", cfg.Proto, strings.Join(cfg.Kinds, "+"), cfg.Pipe, cfg.S, cfg.G, cfg.Chunk, cfg.Log, cfg.Delay, cfg.TCP && p.Stream) + fmt.Sprintf("/ages=%v/seq=%s/beat=%s", cfg.Ages, cfg.Seq, cfg.Beat)
+	sig := fmt.Sprintf("%s/%s/pipe=%s/S%dG%d/%s/log=%s/delay=%d/tcp=%v", cfg.Proto, strings.Join(cfg.Kinds, "+"), cfg.Pipe, cfg.S, cfg.G, cfg.Chunk, cfg.Log, cfg.Delay, cfg.TCP && p.Stream) + fmt.Sprintf("/ages=%v/seq=%s/beat=%s/secure=%v", cfg.Ages, cfg.Seq, cfg.Beat, cfg.Sec)
 	nontrivial := mon.MaxFlight >= 2 && (mon.Recycles >= 1 || *lean) && cs.callsOK > 0
 	if cfg.S == 1 && cfg.G == 1 {
 		nontrivial = cs.callsOK > 0 && (mon.Recycles >= 1 || *lean)
